@@ -1,8 +1,12 @@
 (* GenAgree/Tangent.v — the definitions generated from /repo's current path.py
-   (Line/Arc unit_tangent, normal, curvature) agree with the hand-written
-   models of Model/Tangent.v.  Recompiled on every check run, lemma by lemma.
-   bezier_unit_tangent and segment_curvature contain try/except and are outside
-   the translator's subset: they are tied by correspondence only. *)
+   (Line/Arc unit_tangent, normal, curvature; QuadraticBezier/CubicBezier.unit_tangent
+   through bezier_unit_tangent) agree with the hand-written models of
+   Model/Tangent.v.  Recompiled on every check run, lemma by lemma.
+   gen_Quad_unit_tangent / gen_Cubic_unit_tangent are stated against the REPAIRED
+   variant of the model (flag true): the harness skips them for a tree with the
+   pinned fallback (whose try/except does not translate anyway) and checks them
+   for every other tree.  segment_curvature (np.seterr, try/except) is outside
+   the translator's subset: tied by correspondence only. *)
 From Coq Require Import ZArith List Bool Field.
 From SVP Require Import Base.Num Base.Cplx Base.Poly Base.FieldTac Base.Agree Model.Bezier Model.Tangent.
 From SVP Require Import Gen.GenTangent.
@@ -10,6 +14,68 @@ Import ListNotations.
 Section A.
 Context {K : Type} (N : Num K) (T : NumT K) (OK : NumFieldOK N).
 Add Field KF : (Fth OK).
+
+(* res -> option: Val u |-> Some u, ValueError / AssertionError |-> None *)
+Definition res_opt {A} (r : res A) : option A := match r with Val a => Some a | _ => None end.
+
+Lemma if_cong {A} (c c' : bool) (a a' b b' : A) :
+  c = c' -> a = a' -> b = b' -> (if c then a else b) = (if c' then a' else b').
+Proof. intros; subst; reflexivity. Qed.
+
+(* congruence down to the carrier: boolean tests, hypot_, pairs, options and
+   conditionals are compared structurally, the numbers inside them by ring *)
+Ltac cong :=
+  lazymatch goal with
+  | |- negb _ = negb _ => apply f_equal; cong
+  | |- andb _ _ = andb _ _ => apply f_equal2; cong
+  | |- eqb N _ _ = eqb N _ _ => apply f_equal2; cong
+  | |- hypot_ T _ _ = hypot_ T _ _ => apply f_equal2; cong
+  | |- div N _ (hypot_ T _ _) = div N _ (hypot_ T _ _) => apply f_equal2; cong
+  | |- Some _ = Some _ => apply f_equal; cong
+  | |- (_, _) = (_, _) => apply f_equal2; cong
+  | |- @None _ = @None _ => reflexivity
+  | |- (if _ then _ else _) = (if _ then _ else _) => apply if_cong; cong
+  | |- (if ?c then _ else _) = _ => destruct c; cong
+  | |- _ = (if ?c then _ else _) => destruct c; cong
+  | |- _ => ring
+  end.
+(* like Agree.norm_num but call-by-need (the unused bef/aft of the error message are
+   never evaluated) and with binary64 literals left folded *)
+Ltac norm_lazy :=
+  lazy -[add sub mul div opp inv zero one eqb ltb leb dyadic
+         sqrt_ cos_ sin_ tan_ acos_ asin_ atan_ ln_ pi_ hypot_ radians_ degrees_].
+
+(* the shape of the translated bezier_unit_tangent, over the derivative vectors *)
+Definition unit_pair (a b : K) : Cplx K := (div N a (hypot_ T a b), div N b (hypot_ T a b)).
+Definition nz (d : Cplx K) : bool := negb (andb (eqb N (fst d) (zero N)) (eqb N (snd d) (zero N))).
+Definition neg1 (x : K) : K := mul N (lit N (-1)) x.
+Definition shape2 (d1 d2 : Cplx K) (t : K) : option (Cplx K) :=
+  if negb (eqb N (hypot_ T (fst d1) (snd d1)) (zero N)) then Some (unit_pair (fst d1) (snd d1))
+  else if nz d2 then
+    (if eqb N t (one N) then Some (unit_pair (neg1 (fst d2)) (neg1 (snd d2)))
+     else Some (unit_pair (fst d2) (snd d2)))
+  else None.
+Definition shape3 (d1 d2 d3 : Cplx K) (t : K) : option (Cplx K) :=
+  if negb (eqb N (hypot_ T (fst d1) (snd d1)) (zero N)) then Some (unit_pair (fst d1) (snd d1))
+  else if nz d2 then
+    (if eqb N t (one N) then Some (unit_pair (neg1 (fst d2)) (neg1 (snd d2)))
+     else Some (unit_pair (fst d2) (snd d2)))
+  else if nz d3 then Some (unit_pair (fst d3) (snd d3))
+  else None.
+
+Ltac shape_tac :=
+  intros; destruct_cplx_vars;
+  unfold shape2, shape3, nz, neg1, unit_pair, res_opt, bezier_unit_tangent, unit_tangent_fallback_repaired,
+         first_dir, cabs, ceqb, unit_of, cdivr, copp, c0, re, im;
+  cbn [fst snd Nat.even andb lit of_pos];
+  repeat match goal with |- context [eqb N ?x ?y] => destruct (eqb N x y) end;
+  cbn [negb andb]; cbv beta iota; unfold cabs, re, im; cbn [fst snd]; cong.
+Lemma model_shape2 poly d1 d2 t :
+  res_opt (bezier_unit_tangent N T true poly d1 [d2] t) = shape2 d1 d2 t.
+Proof. shape_tac. Qed.
+Lemma model_shape3 poly d1 d2 d3 t :
+  res_opt (bezier_unit_tangent N T true poly d1 [d2; d3] t) = shape3 d1 d2 d3 t.
+Proof. shape_tac. Qed.
 (* HEADER END *)
 
 (* AGREE gen_Line_unit_tangent *)
@@ -32,5 +98,19 @@ Lemma agree_Arc_normal st (radius : Cplx K) rotation la sw en ce theta delta phi
   gen_Arc_normal N T st radius rotation la sw en ce theta delta phi rm t
   = Some (arc_normal N T (fst radius) (snd radius) rotation theta delta t).
 Proof. agree_ring. Qed.
+(* AGREE gen_Quad_unit_tangent *)
+Lemma agree_Quad_unit_tangent s c e t :
+  gen_Quad_unit_tangent N T s c e t = res_opt (quad_unit_tangent N T true s c e t).
+Proof.
+  unfold quad_unit_tangent. rewrite model_shape2.
+  destruct_cplx_vars. norm_lazy. cong.
+Qed.
+(* AGREE gen_Cubic_unit_tangent *)
+Lemma agree_Cubic_unit_tangent s c1 c2 e t :
+  gen_Cubic_unit_tangent N T s c1 c2 e t = res_opt (cubic_unit_tangent N T true s c1 c2 e t).
+Proof.
+  unfold cubic_unit_tangent. rewrite model_shape3.
+  destruct_cplx_vars. norm_lazy. cong.
+Qed.
 (* FOOTER *)
 End A.
